@@ -287,8 +287,11 @@ def main():
             diagnostics.reduce()
             if (rank == 0):
                 diagnosticFile = open(diagnostic_filename, "a")
+                # the step computed in the iteration with ti % saveStep == i
+                # is collected at time (ti+1)*dt, i.e. in slot (i+1) % saveStep
                 for i in range(startPrint, min(saveStep, ti+1)):
-                    print(diagnostics.getLine(i), file=diagnosticFile)
+                    print(diagnostics.getLine((i+1) % saveStep),
+                          file=diagnosticFile)
                 diagnosticFile.close()
             startPrint = 0
             output_time += (time.time()-output_start)
@@ -310,8 +313,9 @@ def main():
         diagnostics.reduce()
         if (rank == 0):
             diagnosticFile = open(diagnostic_filename, "a")
-            for i in range(ti % saveStep):
-                print(diagnostics.getLine(i), file=diagnosticFile)
+            for i in range(startPrint, ti % saveStep):
+                print(diagnostics.getLine((i+1) % saveStep),
+                      file=diagnosticFile)
             diagnosticFile.close()
 
         distribFunc.writeH5Dataset(foldername, t)
